@@ -9,9 +9,10 @@ pub fn respond(status: u16, body: Vec<u8>) -> HttpOutcome {
 
 /// A genuine `reqwest::Error` (from a request that cannot be built), standing for "connection refused".
 pub fn refused() -> HttpOutcome {
-    let err = reqwest::Client::builder()
-        .build()
-        .unwrap()
+    // building a client loads the TLS root store (~100 ms): once per process
+    static CLIENT: std::sync::OnceLock<reqwest::Client> = std::sync::OnceLock::new();
+    let err = CLIENT
+        .get_or_init(|| reqwest::Client::builder().build().unwrap())
         .get("http://[bad")
         .build()
         .unwrap_err();
